@@ -14,13 +14,15 @@ CONSTANTS PidBytes,     \* first bytes of the planned packets
           Payloads,     \* token mode: 11-bit values (address + 128 * endpoint, or frame number)
           Addrs,        \* device addresses
           MaxPackets,   \* packets per behaviour
-          MaxExtra      \* planned packets are up to MaxExtra bytes longer than a well-formed one
+          MaxExtra,     \* planned packets are up to MaxExtra bytes longer than a well-formed one
+          MaxResets     \* domain resets per behaviour (asserted in any cycle)
 
 VARIABLES plan,         \* bytes the host intends to send in the current packet
           gapped,       \* the previous cycle was an rx_valid gap
-          npk           \* packets started so far
+          npk,          \* packets started so far
+          nrst          \* resets so far
 
-mcvars == <<vars, plan, gapped, npk>>
+mcvars == <<vars, plan, gapped, npk, nrst>>
 
 \* token payload bytes with the correct CRC5 (computed by the bit-serial definition) or one bit of it flipped
 Word(v11, good) == LET c == Usb2Crc5(v11) IN v11 + 2048 * (IF good THEN c ELSE (IF c % 2 = 1 THEN c - 1 ELSE c + 1))
@@ -36,9 +38,10 @@ CrcOkTable == [w \in ModelWords |-> Usb2TokenOk(w % 256, w \div 256)]
 McTokenCrcOk(b1, b2) == CrcOkTable[b1 + 256 * b2]
 ASSUME \A w \in ModelWords : McTokenCrcOk(w % 256, w \div 256) = Usb2TokenOk(w % 256, w \div 256)
 
+\* (while blind the detector may output anything: the model lets it report a token or a frame at will)
 Outputs(i, p1) == {o \in {[ev |-> e, frame |-> f, sel |-> s] :
-                         e \in {<<>>, <<p1>>},
-                         f \in {frame, p1.x},
+                         e \in {<<>>, <<p1>>} \cup (IF blind > 0 THEN {<<Token(PID_OUT, i.addr, 0)>>, <<Sof(5)>>} ELSE {}),
+                         f \in {frame, p1.x} \cup (IF blind > 0 THEN {5} ELSE {}),
                          s \in {<<FALSE, FALSE, FALSE, FALSE>>,
                                 <<p1.x = PID_IN, p1.x = PID_OUT, p1.x = PID_SETUP, p1.x = PID_PING>>}} :
                  OutViolationP(i, o, p1) = "ok"}
@@ -46,30 +49,39 @@ Outputs(i, p1) == {o \in {[ev |-> e, frame |-> f, sel |-> s] :
 Cycle(i) == /\ EnvViolation(i) = "ok"
             /\ LET p1 == Pend1(i) IN \E o \in Outputs(i, p1) : StepP(i, o, p1)
 
-In(a, v, d) == [a |-> a, v |-> v, d |-> d, addr |-> in.addr]
+In(a, v, d) == [a |-> a, v |-> v, d |-> d, addr |-> in.addr, rst |-> FALSE]
 
 Rise  == /\ ~act /\ npk < MaxPackets
          /\ \E p \in Plans : plan' = p
          /\ Cycle(In(TRUE, FALSE, 0))
-         /\ gapped' = FALSE /\ npk' = npk + 1
+         /\ gapped' = FALSE /\ npk' = npk + 1 /\ UNCHANGED nrst
 Byte  == /\ act /\ Len(pkt) < Len(plan)
          /\ Cycle(In(TRUE, TRUE, plan[Len(pkt) + 1]))
-         /\ gapped' = FALSE /\ UNCHANGED <<plan, npk>>
+         /\ gapped' = FALSE /\ UNCHANGED <<plan, npk, nrst>>
 Gap   == /\ act /\ ~gapped /\ Len(pkt) < Len(plan)
          /\ Cycle(In(TRUE, FALSE, 225))                          \* rx_data is a don't-care (here: an OUT PID) in a gap
-         /\ gapped' = TRUE /\ UNCHANGED <<plan, npk>>
+         /\ gapped' = TRUE /\ UNCHANGED <<plan, npk, nrst>>
 End   == /\ act                                                  \* complete, or cut short
          /\ Cycle(In(FALSE, FALSE, 0))
-         /\ gapped' = FALSE /\ UNCHANGED <<plan, npk>>
+         /\ gapped' = FALSE /\ UNCHANGED <<plan, npk, nrst>>
 Quiet == /\ ~act /\ (quiet < QuietSat \/ pend # NoEvent)         \* (further idle cycles change nothing)
          /\ Cycle(In(FALSE, FALSE, 0))
-         /\ UNCHANGED <<plan, gapped, npk>>
+         /\ UNCHANGED <<plan, gapped, npk, nrst>>
 Readdress == /\ ~act /\ npk < MaxPackets
-             /\ \E a \in Addrs \ {in.addr} : Cycle([a |-> FALSE, v |-> FALSE, d |-> 0, addr |-> a])
-             /\ UNCHANGED <<plan, gapped, npk>>
+             /\ \E a \in Addrs \ {in.addr} : Cycle([a |-> FALSE, v |-> FALSE, d |-> 0, addr |-> a, rst |-> FALSE])
+             /\ UNCHANGED <<plan, gapped, npk, nrst>>
 
-MCInit == Init /\ plan = <<>> /\ gapped = FALSE /\ npk = 0
-Next == Rise \/ Byte \/ Gap \/ End \/ Quiet \/ Readdress
+\* a domain reset in any cycle: while idle, in the report window, or in the middle of a packet (the host carries on
+\* with its packet: next byte / gap / end as planned)
+Reset == /\ nrst < MaxResets
+         /\ \E i \in {[In(act, FALSE, 0) EXCEPT !.rst = TRUE],
+                       [In(FALSE, FALSE, 0) EXCEPT !.rst = TRUE]} \cup
+                      (IF act /\ Len(pkt) < Len(plan) THEN {[In(TRUE, TRUE, plan[Len(pkt) + 1]) EXCEPT !.rst = TRUE]} ELSE {}) :
+                Cycle(i)
+         /\ gapped' = FALSE /\ nrst' = nrst + 1 /\ UNCHANGED <<plan, npk>>
+
+MCInit == Init /\ plan = <<>> /\ gapped = FALSE /\ npk = 0 /\ nrst = 0
+Next == Rise \/ Byte \/ Gap \/ End \/ Quiet \/ Readdress \/ Reset
 Spec == MCInit /\ [][Next]_mcvars
 
 -----------------------------------------------------------------------------
@@ -102,7 +114,7 @@ ASSUME /\ ExpectHandshake(<<210>>) = Handshake("ack")   /\ ExpectHandshake(<<90>
        /\ ExpectHandshake(<<30>>)  = Handshake("stall") /\ ExpectHandshake(<<150>>) = Handshake("nyet")
        /\ ExpectHandshake(<<210, 0>>) = NoEvent /\ ExpectHandshake(<<>>) = NoEvent
 
-TypeOK == /\ act \in BOOLEAN /\ age \in 0..(Lat + 1) /\ quiet \in 0..QuietSat /\ frame \in 0..2047
+TypeOK == /\ act \in BOOLEAN /\ age \in 0..(Lat + 1) /\ blind \in 0..(Lat + 1) /\ quiet \in 0..QuietSat /\ frame \in 0..2047
           /\ Len(pkt) <= 3 + MaxExtra
-EnvOK == EnvViolation(in) \in {"ok", "env_address_changed_while_busy"}     \* (in.addr = in.addr after the step)
+EnvOK == TRUE
 =============================================================================
